@@ -38,6 +38,7 @@ type Env struct {
 	inOld  bool
 	depth  int
 	atBlock *ssa.BasicBlock
+	bound   map[string]bool // quantifier / sum variables in scope
 }
 
 func (e *Env) with(name string, v SV) *Env {
@@ -47,6 +48,11 @@ func (e *Env) with(name string, v SV) *Env {
 		n.names[k] = x
 	}
 	n.names[name] = v
+	// variables bound by a quantifier or a sum shadow everything, loop phis included
+	n.bound = map[string]bool{name: true}
+	for k := range e.bound {
+		n.bound[k] = true
+	}
 	return &n
 }
 
@@ -80,6 +86,9 @@ func (e *Env) lookupIdent(name string) (SV, bool, error) {
 	vc := e.vc
 	// inside a loop a reassigned variable (header phi) shadows the parameter of the same name;
 	// the entry value of parameter p is always available as p0
+	if e.bound[name] {
+		return e.names[name], true, nil
+	}
 	if e.li != nil && e.phis != nil && e.fr != nil {
 		for _, in := range e.li.header.Instrs {
 			ph, ok := in.(*ssa.Phi)
@@ -618,9 +627,11 @@ func (e *Env) evalIndex(n *spec.Index) (SV, error) {
 		r.Sort = tt.sort(u.Elem())
 		return SV{T: r, Ty: u.Elem()}, nil
 	case *types.Map:
+		// Go semantics: a missing key (or a nil map) yields the zero value
 		it := i.T
 		r := vc.mapGet(e.state(), u, v.T, it)
 		r.Sort = tt.sort(u.Elem())
+		r = Ite(vc.mapHas(e.state(), u, v.T, it), r, tt.zero(u.Elem()))
 		return SV{T: r, Ty: u.Elem()}, nil
 	case *types.Basic:
 		if u.Info()&types.IsString != 0 {
@@ -870,12 +881,17 @@ func (e *Env) evalCall(n *spec.Call) (SV, error) {
 		for k, v := range e.names {
 			inner.names[k] = v
 		}
+		inner.bound = map[string]bool{}
+		for k := range e.bound {
+			inner.bound[k] = true
+		}
 		for i, p := range m.Params {
 			a, err := e.eval(n.Args[i])
 			if err != nil {
 				return SV{}, err
 			}
 			inner.names[p] = a
+			inner.bound[p] = true // macro parameters shadow loop variables of the same name
 		}
 		return inner.eval(m.Body)
 	}
@@ -962,6 +978,7 @@ type sumInst struct {
 	hi   Term
 	body string // term text with placeholder ph
 	ph   string
+	disc string // memory locations of the identifiers the sum ranges over ("" if none)
 }
 
 func (s *sumInst) at(i string) string { return strings.ReplaceAll(s.body, s.ph, i) }
@@ -1031,29 +1048,30 @@ func (e *Env) evalSum(n *spec.Sum) (SV, error) {
 	// are linked with each other but not with the alt-stack sums); a coarser key (source text only)
 	// links a few recent instances across, e.g. a callee's `sc(stack)` with the caller's sums.
 	ast := n.String()
-	key := ast + "|" + e.sumDiscriminator(n)
+	inst.disc = e.sumDiscriminator(n)
+	key := ast + "|" + inst.disc
 	prev := vc.sums[key]
-	var coarseFirst *sumInst
+	// cross-key links only where one side ranges over a plain value (no memory location to tell
+	// the sums apart): a callee's sc(stack) against the caller's sums, a loop's partial sums
+	// against the total of the precondition.  Sums over different locations are never linked.
 	if all := vc.sums["#"+sumShape(inst.body, ph)]; len(all) > 0 {
-		coarseFirst = all[0]
-		inPrev := false
-		for _, p := range prev {
-			if p == coarseFirst {
-				inPrev = true
+		linkable := func(p *sumInst) bool {
+			if p.disc != "" && inst.disc != "" {
+				return false
 			}
+			for _, q := range prev {
+				if q == p {
+					return false
+				}
+			}
+			return true
 		}
-		if !inPrev { // the very first sum of this shape (usually the entry-state total) comes first
-			prev = append([]*sumInst{coarseFirst}, prev...)
+		if linkable(all[0]) { // the very first sum of this shape (usually the entry-state total) comes first
+			prev = append([]*sumInst{all[0]}, prev...)
 		}
 		extra := 0
 		for k := len(all) - 1; k >= 0 && extra < 2; k-- {
-			found := false
-			for _, p := range prev {
-				if p == all[k] {
-					found = true
-				}
-			}
-			if !found {
+			if linkable(all[k]) {
 				prev = append(append([]*sumInst{}, prev...), all[k])
 				extra++
 			}
